@@ -24,8 +24,8 @@ _entry(ENTRIES, "block_parse", "btclib.block.block:Block.parse", dict(check_vali
 _entry(ENTRIES, "script_parse", "btclib.script.script:parse", {}, q=range(0, 2), t=range(0, 3))
 _entry(ENTRIES, "script_parse_stream", "btclib.script.script:parse", {}, q=range(1, 2), t=range(0, 3), mode="stream")
 _entry(ENTRIES, "dsa_sig_parse_lax", "btclib.ecc.dsa:Sig.parse", dict(check_validity=False, strict=False), q=range(0, 11), t=range(0, 15))
-_entry(ENTRIES, "psbt_deserialize_map", "btclib.psbt.psbt_utils:deserialize_map", {}, q=range(0, 4), t=range(0, 5), mode="stream")
-_entry(ENTRIES, "psbt_parse", "btclib.psbt.psbt:Psbt.parse", dict(check_validity=True), q=range(0, 4), t=range(0, 5), prefix=b"psbt\xff")
+_entry(ENTRIES, "psbt_deserialize_map", "btclib.psbt.psbt_utils:deserialize_map", {}, q=range(0, 4), t=range(0, 4), mode="stream")
+_entry(ENTRIES, "psbt_parse", "btclib.psbt.psbt:Psbt.parse", dict(check_validity=True), q=range(0, 4), t=range(0, 4), prefix=b"psbt\xff")
 _entry(ENTRIES, "p2p_message_parse_validating", "btclib.p2p.message:Message.parse", dict(check_validity=True), q=[23, 24, 25], t=range(22, 28))
 _entry(ENTRIES, "key_origin_parse_validating", "btclib.bip32.key_origin:BIP32KeyOrigin.parse", dict(check_validity=True), q=[0, 3, 4, 5, 8, 9], t=range(0, 17))
 _entry(ENTRIES, "taproot_script_parse", "btclib.script.taproot:parse", {}, q=range(0, 2), t=range(0, 3))
